@@ -29,11 +29,17 @@ func New(config Configuration, statsdClient *statsd.Client) (*SSOProxy, error) {
 
 	hostRouter := hostmux.NewRouter()
 	for _, upstreamConfig := range config.UpstreamConfigs.upstreamConfigs {
+		// each upstream talks to the identity provider it resolves to: its own
+		// provider_slug when it states one, else the deployment default
+		providerConfigs := config.UpstreamConfigs
+		if upstreamConfig.ProviderSlug != "" {
+			providerConfigs.DefaultConfig.ProviderSlug = upstreamConfig.ProviderSlug
+		}
 		provider, err := newProvider(
 			config.ClientConfig,
 			config.ProviderConfig,
 			config.SessionConfig,
-			config.UpstreamConfigs,
+			providerConfigs,
 			statsdClient,
 		)
 		if err != nil {
